@@ -51,8 +51,17 @@ def rotation(rng):
     return r
 
 
-def lattice_spec(rng, kind=None):
-    """JSON-able description of a lattice; `make_lattice` builds the real object from it."""
+def lattice_spec(rng, kind=None, post=True):
+    """JSON-able description of a lattice; `make_lattice` builds the real object from it.
+    With `post`, about a third of the lattices are afterwards changed IN PLACE (re-oriented with
+    setLatPar(baserot=...) alone / with lengths / with an angle, or one parameter assigned)."""
+    spec = _lattice_spec(rng, kind)
+    if post and rng.random() < 0.35:
+        spec["post"] = [lattice_mutation(rng, allow_all6=False) for _ in range(rng.randint(1, 2))]
+    return spec
+
+
+def _lattice_spec(rng, kind=None):
     kind = kind or rng.choice(["ortho", "hex", "oblique", "oblique-rot", "base", "cubic", "mono"])
     r = lambda lo, hi: round(rng.uniform(lo, hi), 4)
     if kind == "ortho":
@@ -81,7 +90,63 @@ def lattice_spec(rng, kind=None):
     return {"kind": "base", "par": par, "baserot": rotm, "via_base": True}
 
 
+def lattice_mutation(rng, allow_all6=True):
+    """JSON-able description of an in-place change of an existing Lattice object"""
+    w = rng.random()
+    r = lambda lo, hi: round(rng.uniform(lo, hi), 4)
+    if allow_all6 and w < 0.3:
+        return {"how": "all6", "par": lattice_spec(rng, rng.choice(["oblique", "hex", "ortho", "mono"]), post=False)["par"]}
+    if w < 0.55:
+        return {"how": "baserot", "rot": rotation(rng).tolist()}
+    if w < 0.7:
+        names = rng.sample(["a", "b", "c"], rng.randint(1, 3))
+        return {"how": "baserot+len", "rot": rotation(rng).tolist(), "len": {n: r(2, 12) for n in sorted(names)}}
+    if w < 0.82:
+        return {"how": "baserot+angle", "rot": rotation(rng).tolist(), "name": rng.choice(["alpha", "beta", "gamma"]), "value": r(62, 118)}
+    if w < 0.92:
+        return {"how": "prop", "name": rng.choice(["a", "b", "c"]), "value": r(2, 12)}
+    return {"how": "prop", "name": rng.choice(["alpha", "beta", "gamma"]), "value": r(62, 118)}
+
+
+def _cell_valid(al, be, ga):
+    ca, cb, cg = (math.cos(math.radians(x)) for x in (al, be, ga))
+    return 1 - ca * ca - cb * cb - cg * cg + 2 * ca * cb * cg > 0.15
+
+
+def apply_mutation(L, m):
+    """perform the in-place change on the real object; False when it would give a degenerate cell (skipped)"""
+    import numpy as np
+
+    how = m["how"]
+    if how == "all6":
+        L.setLatPar(*m["par"])
+        return True
+    ang = {"alpha": L.alpha, "beta": L.beta, "gamma": L.gamma}
+    if m.get("name") in ang:
+        ang[m["name"]] = m["value"]
+        if not _cell_valid(ang["alpha"], ang["beta"], ang["gamma"]):
+            return False
+    if how == "baserot":
+        L.setLatPar(baserot=np.array(m["rot"]))
+    elif how == "baserot+len":
+        L.setLatPar(baserot=np.array(m["rot"]), **m["len"])
+    elif how == "baserot+angle":
+        L.setLatPar(baserot=np.array(m["rot"]), **{m["name"]: m["value"]})
+    elif how == "prop":
+        setattr(L, m["name"], m["value"])
+    else:
+        raise ValueError(how)
+    return True
+
+
 def make_lattice(spec):
+    L = _make_lattice(spec)
+    for m in (spec or {}).get("post", []):
+        apply_mutation(L, m)
+    return L
+
+
+def _make_lattice(spec):
     import numpy as np
     from diffpy.structure import Lattice
 
@@ -215,7 +280,7 @@ def gen_history(rng, maxops):
             st = {"op": "L", "k": k}
             via = "atom" if mode == "atom" else "col"   # in a Structure the lattice is assigned through the owner
         elif w < 0.88:
-            st = {"op": "Lmut", "spec": lattice_spec(rng, rng.choice(["oblique", "hex", "ortho", "mono"]))}
+            st = {"op": "Lmut", "mut": lattice_mutation(rng)}
         else:
             st = {"op": "G"}
         st["via"] = via
@@ -318,7 +383,9 @@ class Impl:
             L = a.lattice
             if L is None:
                 return []
-            L.setLatPar(*st["spec"]["par"])
+            m = st["mut"] if "mut" in st else {"how": "all6", "par": st["spec"]["par"]}
+            if not apply_mutation(L, m):
+                return []
             self.snap.append(lat_words(L))
             self.objidx[id(L)] = len(self.snap)
             return ["L", str(len(self.snap))]
@@ -615,7 +682,7 @@ def run(ck):
     ck.coverage["rule"] = (
         "seeded random histories (3..%d steps) on a fresh Atom (constructor-argument forms) or an atom inside a Structure of 1-3 atoms; "
         "steps: flag, full U, Uij, Bij, Uisoequiv, Bisoequiv (directly or by Structure column assignment), lattice replaced (incl. None), "
-        "lattice mutated in place by setLatPar, U read (rewrites storage); 1-3 lattices per history from "
+        "lattice changed in place (setLatPar with all six parameters, baserot= alone / with lengths / with an angle, assignment to lat.a ... lat.gamma), U read (rewrites storage); 1-3 lattices per history from "
         "{orthogonal, cubic, hexagonal, monoclinic, oblique, oblique+rotated, built from base vectors}; tensors symmetric "
         "(positive definite, mixed sign, zero, traceless, tiny, diagonal); after every step all readable quantities are compared "
         "with the Float model and the statement's equalities are evaluated with plain numpy on a copy of the atom. "
